@@ -36,14 +36,14 @@ Theorem C11_reference_assignment_copies_the_values : forall L, wf_plist L = true
 Proof. exact ref_assign_copy. Qed.
 Print Assumptions C11_reference_assignment_copies_the_values.
 
-Theorem C11_assign_table_covers_every_field : forall L j, (j < length L)%nat ->
-  covered (runs_asg L) j.
-Proof. intros L. exact (proj1 (runs_asg_structure L)). Qed.
+Theorem C11_assign_table_covers_every_field : forall mv L j, (j < length L)%nat ->
+  covered (runs_asg mv L) j.
+Proof. intros mv L. exact (proj1 (runs_asg_structure mv L)). Qed.
 Print Assumptions C11_assign_table_covers_every_field.
 
-Theorem C11_assign_runs_hold_only_trivially_assignable_fields : forall L,
-  sound tasg L (runs_asg L) (length L).
-Proof. intros L. exact (proj2 (runs_asg_structure L)). Qed.
+Theorem C11_assign_runs_hold_only_trivially_assignable_fields : forall mv L,
+  sound (tasg mv) L (runs_asg mv L) (length L).
+Proof. intros mv L. exact (proj2 (runs_asg_structure mv L)). Qed.
 Print Assumptions C11_assign_runs_hold_only_trivially_assignable_fields.
 
 Theorem C11_swap_table_covers_every_field : forall L j, (j < length L)%nat ->
@@ -70,8 +70,20 @@ Example C11_partially_trivial_tables :
   let L := [ {| pk := Plain; psz := 4; pal := 1; pty := TUInt |};
              {| pk := Fixed; psz := 4; pal := 1; pty := TBlob |};
              {| pk := Fixed; psz := 8; pal := 1; pty := TTrk |} ] in
-  runs_swp L = [REnd 1; RSkip; RManual] /\ runs_asg L = [REnd 1; RSkip; RManual].
-Proof. vm_compute. split; reflexivity. Qed.
+  runs_swp L = [REnd 1; RSkip; RManual] /\ runs_asg false L = [REnd 1; RSkip; RManual] /\
+  runs_asg true L = [REnd 1; RSkip; RManual].
+Proof. vm_compute. repeat split; reflexivity. Qed.
+
+(* the copy and the move table differ where a type is trivial for one assignment only: a
+   handle with a user-provided move assignment (TTrkMA) is memmoved by a copy assignment and
+   assigned object by object by a move assignment; the reverse for TTrkCA *)
+Example C11_copy_and_move_tables_differ :
+  let L := [ {| pk := Plain; psz := 4; pal := 1; pty := TUInt |};
+             {| pk := Plain; psz := 4; pal := 1; pty := TTrkMA |};
+             {| pk := Fixed; psz := 4; pal := 1; pty := TTrkCA |} ] in
+  runs_asg false L = [REnd 1; RSkip; RManual] /\ runs_asg true L = [REnd 0; RManual; REnd 2] /\
+  runs_swp L = [REnd 0; RManual; REnd 2].
+Proof. vm_compute. repeat split; reflexivity. Qed.
 
 (* swap between element references in different vectors, every list and run-table shape *)
 Theorem C11_reference_swap_exchanges_the_values : forall L, wf_plist L = true ->
